@@ -421,7 +421,13 @@ def queries(seed, codes=None, npop=3):
                     ops.append(f"insert #{e} K{k} {r.randrange(100)}")
     for i, q in enumerate(chosen[2:], start=2):
         ops.append(f"addh name=q{i} prio=m params=R:G0:i;F:{q} body=iter:1,get:1:{ctx.ent()},get:1:{ctx.ent()},getmany:1:{ctx.ent()}+{ctx.ent()},bump:1,iter:1")
+    # Single / TrySingle over the same populations: exactly one match, none, or several (possibly in different archetypes)
+    sq = r.choice([c for c in FAMILY["single"] if all((not ch.isdigit()) or int(ch) in comps for ch in c)])
+    ops.append(f"addh name=ts prio=m params=R:G1:i;TS:{sq} body=single:1")
+    if r.random() < 0.4:
+        ops.append(f"addh name=sg prio=l params=R:G1:i;S:{r.choice(['r0', 'E', '(E,r1)', 'O<r0|r1>'])} body=single:1")
     ops.append("send G0")
+    ops.append("send G1")
     # churn: removals in the middle, moves, emptied and refilled archetypes
     for _ in range(r.randint(5, 25)):
         x = r.random()
@@ -437,6 +443,7 @@ def queries(seed, codes=None, npop=3):
         if r.random() < 0.3:
             ops.append("send G0")
     ops.append("send G0")
+    ops.append("send G1")
     ops.append("drop")
     return ops
 
@@ -457,6 +464,10 @@ def targeted(seed):
     tgt = r.randrange(8)
     acts = [a.replace("#T", f"#{tgt}") for a in ([change, f"sendto:T0:#{tgt}"] if r.random() < 0.7 else [f"sendto:T0:#{tgt}", change]) if a]
     ops.append(f"addh name=drv prio=m params=R:G0:i;Snd:T0,InsK0,InsK1,InsK2,RemK0,RemK1,Despawn body={','.join(acts)}")
+    # a second driver targets an entity it has just asked to be spawned: not alive when the event is sent, alive (and
+    # possibly already moved to another archetype) when it is delivered
+    extra = r.choice(["spawn,sendto:T0:last", "spawn,sendto:T0:last,ins:last:K0:3,sendto:T0:last", "spawn,ins:last:K1:4,sendto:T0:last"])
+    ops.append(f"addh name=drv2 prio=m params=R:G1:i;Snd:Spawn,T0,InsK0,InsK1 body={extra}")
     # entities #0..#7: a random choice of component sets, inserted in random order, so that some archetypes only come
     # into existence later (through a removal, or when the driver's change is applied)
     masks = [r.randrange(8) for _ in range(8)] if r.random() < 0.6 else list(range(8))
@@ -473,6 +484,7 @@ def targeted(seed):
         q = r.choice(fam)
         ops.append(f"addh name=r{i} prio={r.choice('hml')} params=R:T0:i:{q} body=recv")
     ops.append("send G0")
+    ops.append("send G1")
     for e in range(8):
         ops.append(f"sendto T0 #{e}")
     for _ in range(r.randint(0, 4)):
